@@ -33,8 +33,9 @@ class MetadataFilter:
         self.metadata_name = metadata_name
 
     def __call__(self, name, trait):
-        # If the metadata is not defined, CTrait still returns None.
-        return getattr(trait, self.metadata_name) is not None
+        # If the metadata is not defined, CTrait still returns None, except
+        # for names of the form __xxx__, for which it raises AttributeError.
+        return getattr(trait, self.metadata_name, None) is not None
 
     def __eq__(self, other):
         return (
